@@ -337,6 +337,26 @@ B("float-negative-by-negated-ge-before-nan-test", ["C18"],
 N("idiom-float-classification-renamed-and-reordered", ["C18"],
   [("src/from.rs", "    fn try_from(value: f64) -> Result<Self, Self::Error> {\n        if value.is_nan() {\n            return Err(ToUintError::NotANumber(BITS));\n        }\n        if value < 0.0 {\n            let wrapped = match Self::try_from(value.abs()) {", "    fn try_from(value: f64) -> Result<Self, Self::Error> {\n        let x = value;\n        if x != x {\n            return Err(ToUintError::NotANumber(BITS));\n        }\n        if x < 0.0 {\n            let wrapped = match Self::try_from(x.abs()) {")])
 
+# ---- R-TABLE char truncation (seed C09d re-created, and the guarded form)
+B("char-cast-unguarded-u8", ["C09"],
+  [("src/string.rs", "                    '0'..='9' => u64::from(c) - u64::from('0'),\n                    'a'..='z' => u64::from(c) - u64::from('a') + 10,", "                    _ if (c as u8).is_ascii_digit() => u64::from(c as u8) - u64::from(b'0'),\n                    'a'..='z' => u64::from(c) - u64::from('a') + 10,")], "char-cast->u8")
+N("idiom-char-cast-behind-is_ascii", ["C09"],
+  [("src/string.rs", "                    '0'..='9' => u64::from(c) - u64::from('0'),\n                    'a'..='z' => u64::from(c) - u64::from('a') + 10,", "                    '0'..='9' => u64::from(c as u8) - u64::from(b'0'),\n                    'a'..='z' => u64::from(c) - u64::from('a') + 10,")])
+# ---- R-CASTFIT/payload (seed C07d re-created)
+B("payload-u128-low-limb-only", ["C07"],
+  [("src/from.rs", "        result |= (value.limbs[1] as u128) << 64;\n        if value.bit_len() > 128 {\n            return Err(Self::Error::Overflow(BITS, result, u128::MAX));\n        }", "        if value.bit_len() > 128 {\n            return Err(Self::Error::Overflow(BITS, result, u128::MAX));\n        }\n        result |= (value.limbs[1] as u128) << 64;")], "payload")
+# ---- R-GUARD/write-extent (seed C08e re-created)
+B("write-extent-le-whole-buffer-chunks", ["C08"],
+  [("src/bytes.rs", "        #[cfg(target_endian = \"little\")]\n        buf[..Self::BYTES].copy_from_slice(self.as_le_slice());", "        #[cfg(target_endian = \"little\")]\n        for (&limb, chunk) in self.limbs.iter().zip(buf.chunks_mut(8)) {\n            let le = limb.to_le_bytes();\n            let n = chunk.len();\n            chunk.copy_from_slice(&le[..n]);\n        }")], "extent")
+# ---- threshold widening: a `loop` with an `==` exit test
+N("idiom-add-loop-with-eq-exit", ["C01"],
+  [("src/add.rs", "        let mut i = 0;\n        while i < LIMBS {\n            (self.limbs[i], carry) = carrying_add(self.limbs[i], rhs.limbs[i], carry);\n            i += 1;\n        }", "        let mut i = 0;\n        loop {\n            if i == LIMBS {\n                break;\n            }\n            (self.limbs[i], carry) = carrying_add(self.limbs[i], rhs.limbs[i], carry);\n            i += 1;\n        }")])
+B("add-loop-with-eq-exit-off-by-one", ["C01"],
+  [("src/add.rs", "        let mut i = 0;\n        while i < LIMBS {\n            (self.limbs[i], carry) = carrying_add(self.limbs[i], rhs.limbs[i], carry);\n            i += 1;\n        }", "        let mut i = 0;\n        loop {\n            if i == LIMBS + 1 {\n                break;\n            }\n            (self.limbs[i], carry) = carrying_add(self.limbs[i], rhs.limbs[i], carry);\n            i += 1;\n        }")], "overflowing_add")
+# ---- Sum<&Uint> through Iterator::sum
+N("idiom-sum-ref-via-copied-sum", ["C01", "C04", "C20"],
+  [("src/add.rs", "        iter.copied().fold(Self::ZERO, Self::wrapping_add)", "        iter.copied().sum()")])
+
 # ---- R-TOTAL/overflow-checks on C16 (defect F16, re-created)
 B("ovf-scale-size_hint-256-bit-formula", ["C16"],
   [("src/support/scale.rs", "            _ => self.0.byte_len() + 1,\n", "            _ => (32 - self.0.leading_zeros() / 8) + 1,\n")], "Overflow(Sub:32")
